@@ -1,0 +1,45 @@
+//! Verification hooks for the area ReconfUnits (feature `verif-hooks`,
+//! add-only): build a `Filter` unit from links the harness owns and run it
+//! exactly as `Filter::run` does, keeping a read handle on the runner's
+//! `filter_name`. Nothing here has behaviour of its own.
+use std::future::Future;
+use std::sync::Arc;
+
+use arc_swap::ArcSwap;
+use non_empty_vec::NonEmpty;
+
+use super::{Filter, RotoFilterRunner};
+use crate::comms::{DirectLink, Gate, Link, Terminated};
+use crate::manager::{Component, WaitPoint};
+use crate::roto_runtime::types::FilterName;
+
+/// A `filter` unit with the given sources and filter name.
+pub fn filter_unit(filter_name: &str, sources: Vec<Link>) -> Option<Filter> {
+    let sources: Vec<DirectLink> =
+        sources.into_iter().map(Into::into).collect();
+    Some(Filter {
+        sources: NonEmpty::try_from(sources).ok()?,
+        filter_name: FilterName::from(filter_name.to_string()),
+    })
+}
+
+/// Read access to the `filter_name` the running unit currently uses.
+pub struct NameProbe(Arc<ArcSwap<FilterName>>);
+
+impl NameProbe {
+    pub fn get(&self) -> String {
+        format!("{}", **self.0.load())
+    }
+}
+
+/// `Filter::run`, field for field, returning the probe as well.
+pub fn run(
+    filter: Filter,
+    component: Component,
+    gate: Gate,
+    waitpoint: WaitPoint,
+) -> (NameProbe, impl Future<Output = Result<(), Terminated>>) {
+    let runner = RotoFilterRunner::new(gate, component, filter.filter_name);
+    let probe = NameProbe(runner.filter_name.clone());
+    (probe, runner.run(filter.sources, waitpoint))
+}
